@@ -95,9 +95,18 @@ def rule_matches(laue, cc, s):
     return (s['cell_choice'] == cc[1]) if cc[0] else (s['cell_choice'] != cc[1])
 
 
+def frozen_model():
+    """segment tables and scale rule of the REVIEWED tree (harness/d2_defect_model.json, committed, never regenerated): the oracle
+    and the defect model of the known finding D2 must not follow the source they are judging (a change that drops the 1.1
+    over-scan of the -3 rhombohedral walk would otherwise re-define the known finding and be excused by it)"""
+    if 'frozen' not in _cache:
+        _cache['frozen'] = json.load(open(os.path.join(os.path.dirname(os.path.dirname(os.path.abspath(__file__))), 'd2_defect_model.json')))
+    return _cache['frozen']
+
+
 def segments(s, modname='tools'):
-    """segm of genhkl_base for the setting (sequential ifs: last matching rule) and the scale as a Fraction"""
-    m = hkl_meta(modname)
+    """segm of genhkl_base for the setting (sequential ifs: last matching rule) and the scale as a Fraction -- of the reviewed tree"""
+    m = frozen_model()
     segs = None
     for r in m['rules']:
         if rule_matches(r['laue'], r['cc'], s):
@@ -218,18 +227,31 @@ class Case:
                     out.append((x, i, tuple(int(v) for v in n)))
         return out
 
-    def path_inside(self, seg_index, n):
+    def path_inside(self, seg_index, n, scale=None):
         """does the traversal as coded reach s + n1 d1 + n2 d2 + n3 d3: every point of the path s (+d3)* (+d2)* (+d1)* after the
         start passes the stop test Q <= (2*scale*max)^2"""
         s0, d1, d2, d3 = (np.array(v) for v in self.segs[seg_index])
         n1, n2, n3 = n
         p = s0.copy()
+        lim = 4 * ((self.scale if scale is None else scale) * Fraction(self.smax)) ** 2
         for d, cnt in ((d3, n3), (d2, n2), (d1, n1)):
             for _ in range(cnt):
                 p = p + d
-                if not self.in_scaled_shell(p):
+                if q_exact(self.G, p) > lim:
                     return False
         return True
+
+    def scale_sensitive(self):
+        """some allowed family of the shell is reached by the traversal with the (reviewed) over-scan factor of this setting but
+        would not be reached with the default factor: the case exercises the scale rule"""
+        default = Fraction(*frozen_model()['scale_default'])
+        if self.scale == default:
+            return False
+        for fam in families(self, self.expected()):
+            pl = self.placements(fam)
+            if any(self.path_inside(i, n) for _x, i, n in pl) and not any(self.path_inside(i, n, default) for _x, i, n in pl):
+                return True
+        return False
 
     def classify_missing_family(self, fam):
         """'D2' when no member of the family is reachable by the traversal as coded (its path leaves the scaled shell),
@@ -262,9 +284,62 @@ def shell(rng, cell):
     return float(round(smin, 5)), float(round(smax, 5))
 
 
+def sweep_cases(ctx):
+    out = []
+    for s in settings():
+        cc = 'rhombohedral' if s['cell_choice'] == 'rhombohedral' else 'standard'
+        for _ in range(12):
+            cell = gens.conforming_cell(ctx.rng, s['cs'], cc, orth=s['cs'] in ('triclinic', 'monoclinic'))
+            m = min(cell[:3])
+            cell = [float(round(min(x, 1.6 * m), 3)) for x in cell[:3]] + [float(round(x, 3)) for x in cell[3:]]
+            if s['cs'] in ('tetragonal', 'trigonal', 'hexagonal') and cc == 'standard':
+                cell[1] = cell[0]
+            if s['cs'] == 'cubic' or cc == 'rhombohedral':
+                cell[1] = cell[2] = cell[0]
+            smax = float(round(ctx.rng.uniform(1.55, 2.3) / max(cell[:3]), 5))
+            try:
+                c = Case(s, cell, 0.0, smax)
+            except Exception:
+                continue
+            if c.ok:
+                out.append(c)
+                break
+    return out
+
+
+def scale_rule_cases(ctx, per_setting=2, tries=60):
+    """cases on which the sintl_scale rule of genhkl_base decides whether a reflection is found (deep shells of acute cells in the
+    settings the reviewed rule names): without them the rule is dead code for every stream"""
+    out = []
+    fm = frozen_model()
+    for s in settings():
+        if not any(rule_matches(r['laue'], r['cc'], s) for r in fm['scale_rules']):
+            continue
+        cc = 'rhombohedral' if s['cell_choice'] == 'rhombohedral' else 'standard'
+        found = 0
+        for _ in range(tries):
+            cell = gens.conforming_cell(ctx.rng, s['cs'], cc)
+            if cc == 'rhombohedral':
+                al = round(ctx.rng.uniform(55.0, 85.0), 2)
+                cell = [cell[0]] * 3 + [al] * 3
+            cell = [float(round(x, 3)) for x in cell]
+            smax = float(round(ctx.rng.uniform(2.5, 4.2) / max(cell[:3]), 5))
+            try:
+                c = Case(s, cell, 0.0, smax)
+            except Exception:
+                continue
+            if c.ok and c.scale_sensitive():
+                out.append(c)
+                found += 1
+                if found >= per_setting:
+                    break
+    return out
+
+
 def sample_settings(ctx, nquick):
     S = settings()
-    if ctx.thorough:
+    if ctx.thorough or ctx.boost:
+        # boost = an obligation, the correspondence or a translator broke: every table is looked at
         return list(S)
     strata = {}
     for s in S:
@@ -575,6 +650,21 @@ def oracle(ctx, hints=()):
             evals += len(seeds)
         nontriv += 1 if c.nontrivial else 0
         per_cs[c.s['cs']] = per_cs.get(c.s['cs'], 0) + 1
+    # every setting, every run: one compact conforming cell and a shell from 0 that reaches indices of 3-5 (the sampled stream above
+    # draws 60 of the 237 settings and often shallow shells: a change confined to ONE table or one branch of sysabs -- Pa-3's
+    # transposed zone conditions -- was missed by it)
+    sw = sweep_cases(ctx)
+    for i, c in enumerate(sw):
+        v, k = check_all(c, 'tools' if (i + ctx.seed) % 2 == 0 else 'laue', 'no' if (i // 2 + ctx.seed) % 2 == 0 else 'name', (i,), variant=0)
+        viol += v
+        d2 += k
+        evals += 1
+    sr = scale_rule_cases(ctx, per_setting=ctx.n(1, 4, boost=3))
+    for i, c in enumerate(sr):
+        v, k = check_all(c, 'tools' if (i + ctx.seed) % 2 == 0 else 'laue', 'no', (i,), variant=0)
+        viol += v
+        d2 += k
+        evals += 1
     nhr = 0
     for rep in range(ctx.n(1, 6, boost=3)):
         for no in R_GROUPS:
@@ -586,7 +676,7 @@ def oracle(ctx, hints=()):
     c0 = cases[0]
     sample = dict(c0.ident(), n_expected=len(c0.expected()))
     return {'evaluations': evals, 'distinct_nontrivial': nontriv, 'violations': dedup_known(viol), 'samples': [sample],
-            'stats': {'cases': len(cases), 'skipped_margin': skipped, 'D2_hits': d2, 'hex_rhomb_pairs': nhr, 'cases_per_crystal_system': per_cs},
+            'stats': {'cases': len(cases), 'all_settings_sweep': len(sw), 'scale_rule_cases': len(sr), 'skipped_margin': skipped, 'D2_hits': d2, 'hex_rhomb_pairs': nhr, 'cases_per_crystal_system': per_cs},
             'exhaustive': False}
 
 
